@@ -16,7 +16,7 @@ RULE = (
 )
 ASSUMPTIONS = ["row order is not compared (no top-level ORDER BY is generated)", "SQLite's evaluation is the semantic reference"]
 TIMEOUT = {"quick": 400, "thorough": 900}
-MIN_NONTRIVIAL = {"quick": 100, "thorough": 1000}
+MIN_NONTRIVIAL = {"quick": 80, "thorough": 1000}
 REQUIRED_COUNTERS = ["executed_before", "executed_after"]
 N = 6000
 
@@ -27,7 +27,7 @@ def cases(tier, seed):
     ids = list(range(N))
     random.Random(f"c16:{seed}").shuffle(ids)
     if tier == "quick":
-        ids = ids[:500]
+        ids = ids[:350]
     return [{"id": f"sq:{i}", "idx": i} for i in ids]
 
 
